@@ -209,6 +209,63 @@ def run_history(ctx, idxs, case, cover=None):
                 cover["states"].add(abstract(s))
 
 
+def k_many(ctx, seed):
+    """A tracker with several hundred telecommands whose request ids are close neighbours (dense APID x sequence-count x version
+    grid): every one registers as new, a report built for one - and one decoded from octets built by the reference model from the
+    telecommand's own packed header - updates exactly that one, removal removes exactly that one."""
+    import random
+    from spacepackets.ecss.tc import PusTc, PusTcDataFieldHeader
+    from spacepackets.ccsds.spacepacket import SpacePacketHeader, PacketType, SequenceFlags
+    from spacepackets.ecss.pus_verificator import PusVerificator
+    from spacepackets.ecss.pus_1_verification import Service1Tm, UnpackParams, create_acceptance_success_tm
+    from spverif.ref import pus as _P
+    r = random.Random(f"many/{seed}")
+    case = {"k": "many", "seed": seed}
+    ctx.case("many_telecommands", seed, sample=case)
+    a0, c0 = r.getrandbits(11) & 0x7F8, r.getrandbits(14) & 0x3F00
+    specs = [(a0 + da, c0 + dc, ver, fl) for da in range(4) for dc in range(0, 96) for ver in (0, r.choice((1, 5, 7))) for fl in (3,)]
+    r.shuffle(specs)
+    specs = specs[:400]
+    v = PusVerificator()
+    tcs = {}
+    for (a, c, ver, fl) in specs:
+        h = SpacePacketHeader(PacketType.TC, a, c, 6, True, SequenceFlags(fl), ver)
+        tc = PusTc.from_composite_fields(h, PusTcDataFieldHeader(17, 1), b"")
+        key = int.from_bytes(bytes(tc.pack())[:4], "big")
+        assert key == int.from_bytes(_P.request_id(ver, 1, 1, a, fl, c), "big")
+        ok, res = attempt(v.add_tc, tc)
+        if not ctx.check("tracker.add_tc", ok and res is True, "distinct_telecommand_refused_as_duplicate", "many", dict(case, spec=[a, c, ver, fl]), observed=repr(res)):
+            return
+        tcs[key] = tc
+    ctx.check("tracker.state", len(v.verif_dict) == len(tcs) and {int.from_bytes(bytes(k.pack()), "big") for k in v.verif_dict} == set(tcs), "verif_dict_differs_from_model", "many/presence", case,
+              entries=len(v.verif_dict), expected=len(tcs))
+    keys = list(tcs)
+    for key in r.sample(keys, 60):
+        tc = tcs[key]
+        if r.random() < 0.5:
+            tm, route = create_acceptance_success_tm(0x33, tc, b""), "helper"
+        else:
+            raw = _P.tm(0x33, 0, 1, 1, 0, 0, 0, b"", _P.srv1_source_data(bytes(tc.pack())[:4], None, None, b""))
+            tm, route = Service1Tm.unpack(raw, UnpackParams(0, 1, 1)), "model_octets"
+        before = snap(v)
+        ok, res = attempt(v.add_tm, tm)
+        ctx.table("many_report_route", route)
+        if not ctx.check("tracker.add_tm", ok and res is not None and res.completed is False, "result", f"sub=1/unknown_vs_known/{route}", dict(case, key=hex(key)), observed=repr(res)):
+            return
+        now = snap(v)
+        changed = [k for k in now if now[k] != before.get(k)]
+        if not ctx.check("tracker.isolation", changed == [key] and now[key]["accepted"] == SUCCESS, "report_changed_other_telecommand", f"sub=1/{route}", dict(case, key=hex(key)),
+                         changed=[hex(k) for k in changed][:5]):
+            return
+    for key in r.sample(keys, 40):
+        rid = [k for k in v.verif_dict if int.from_bytes(bytes(k.pack()), "big") == key][0]
+        n0 = len(v.verif_dict)
+        ok, res = attempt(v.remove_entry, rid)
+        left = {int.from_bytes(bytes(k.pack()), "big") for k in v.verif_dict}
+        if not ctx.check("tracker.remove_entry", ok and res is True and len(left) == n0 - 1 and key not in left, "answer", "many", dict(case, key=hex(key))):
+            return
+
+
 COVER = {"states": set(), "transitions": set()}
 
 
@@ -224,7 +281,7 @@ def k_history(ctx, idxs, tc_set=0, route="ctor", letters=None):
     run_history(ctx, idxs, case, COVER)
 
 
-KINDS = {"history": k_history}
+KINDS = {"history": k_history, "many": k_many}
 
 
 def selftest(ctx):
@@ -274,6 +331,8 @@ def run(ctx):
     for j in range(ctx.n(800, 80_000)):
         ln = r.randrange(20, 201)
         k_history(ctx, r.choices(range(n), weights=weights, k=ln), j % 5, REPORT_ROUTES[(j // 5) % 3])
+    for j in range(ctx.n(6, 300)):
+        k_many(ctx, ctx.seed * 1_000_003 + ctx.shard[0] * 100_003 + j)
     ctx.extra["transitions_list"] = sorted([list(a), b] for a, b in COVER["transitions"])
     ctx.extra["abstract_state_space"] = {"states": 162, "transitions": 162 * 8}
     ctx.extra["states_list"] = sorted(list(s) for s in COVER["states"])
